@@ -201,6 +201,15 @@ pub fn hostile_spec(words: &[u32]) -> HostileSpec {
     sb.ev(Ev::Apply(vec![al(id(B, 0))], true));
     sb.ev(Ev::Leave);
     base.seed_hists.push(sb.done());
+    // long-lived instances: timer token about to wrap (active / defunct)
+    // (quick tier: only the defunct one, a single call away from the wrap)
+    let quick = std::env::var("VERIF_C06_TIER").map(|t| t != "thorough").unwrap_or(false);
+    for target in if quick { vec![255u8] } else { vec![254u8, 255] } {
+        let mut sb = SeedBuilder::new(&base);
+        sb.ev(Ev::Apply(vec![al(id(B, 0)), al(id(C, 0))], true));
+        sb.age_token(target);
+        base.seed_hists.push(sb.done());
+    }
     HostileSpec { base, emitted: Mutex::new(HashSet::new()) }
 }
 
@@ -454,6 +463,7 @@ pub fn c06(tier: &str) -> Report {
     let mut rep = Report::new("C06", tier, "model_checking");
     let words = calibrated(&mut rep, 4, 3);
     // (a) hostile exploration
+    std::env::set_var("VERIF_C06_TIER", tier);
     let spec = hostile_spec(&words);
     // quick: the plain-release pass explores one level less (it exists to
     // compare builds and to catch what only shows without debug assertions)
